@@ -170,6 +170,73 @@ fn main() {
             }
         }
     }
+    // ---- the dispatch layer: (a) the pub fns of ShardedActorState whose body reaches `self.shards`
+    // (a shard mailbox); (b) every call site `<…>state.<pub fn>(` in the other files of
+    // src/production that hold a ShardedActorState (connection handler, TTL manager, servers)
+    let mut mailbox_fns: Vec<String> = Vec::new();
+    {
+        let mut cur: Option<String> = None;
+        let mut in_state_impl = false;
+        for line in src.lines() {
+            let t = line.trim_start();
+            if t.starts_with("#[cfg(test)]") {
+                break;
+            }
+            if t.starts_with("impl") && t.contains("ShardedActorState") {
+                in_state_impl = true;
+            } else if line.starts_with('}') {
+                in_state_impl = false;
+                cur = None;
+            }
+            if !in_state_impl {
+                continue;
+            }
+            if t.starts_with("pub fn ") || t.starts_with("pub async fn ") || t.starts_with("fn ") || t.starts_with("async fn ") {
+                let is_pub = t.starts_with("pub ");
+                let after = t.split("fn ").nth(1).unwrap_or("");
+                let name: String = after.chars().take_while(|c| c.is_alphanumeric() || *c == '_').collect();
+                cur = if is_pub { Some(name) } else { None };
+            }
+            if t.contains("self.shards") && !t.starts_with("//") {
+                if let Some(n) = &cur {
+                    if !mailbox_fns.contains(n) {
+                        mailbox_fns.push(n.clone());
+                    }
+                }
+            }
+        }
+        mailbox_fns.sort();
+    }
+    let mut call_sites: Vec<(String, String)> = Vec::new();
+    {
+        let dir = PathBuf::from(&dep).join("src/production");
+        let mut files: Vec<PathBuf> = fs::read_dir(&dir).map(|rd| rd.flatten().map(|e| e.path()).filter(|p| p.extension().map(|x| x == "rs").unwrap_or(false)).collect()).unwrap_or_default();
+        files.sort();
+        for f in files {
+            let name = f.file_name().unwrap().to_string_lossy().to_string();
+            if name == "sharded_actor.rs" {
+                continue;
+            }
+            let text = fs::read_to_string(&f).unwrap_or_default();
+            if !text.contains("ShardedActorState") {
+                continue;
+            }
+            for (ln, line) in text.lines().enumerate() {
+                let t = line.trim_start();
+                if t.starts_with("#[cfg(test)]") {
+                    break;
+                }
+                if t.starts_with("//") {
+                    continue;
+                }
+                for fname in &state {
+                    if t.contains(&format!("state.{}(", fname)) {
+                        call_sites.push((fname.clone(), format!("{}:{}", name, ln + 1)));
+                    }
+                }
+            }
+        }
+    }
     let list = |v: &Vec<String>| v.iter().map(|s| format!("{:?}", s)).collect::<Vec<_>>().join(", ");
     let out = format!(
         "pub const SHARD_MESSAGES: &[&str] = &[{}];\npub const HANDLE_FNS: &[&str] = &[{}];\npub const STATE_PUB_FNS: &[&str] = &[{}];\npub const CONFIG_PUB_FNS: &[&str] = &[{}];\n",
@@ -185,6 +252,12 @@ fn main() {
         list(&mut_self),
         list(&assigns),
         list(&consumers)
+    );
+    let out = format!(
+        "{}pub const MAILBOX_REACHING_FNS: &[&str] = &[{}];\npub const STATE_CALL_SITES: &[(&str, &str)] = &[{}];\n",
+        out,
+        list(&mailbox_fns),
+        call_sites.iter().map(|(a, b)| format!("({:?}, {:?})", a, b)).collect::<Vec<_>>().join(", ")
     );
     let dest = PathBuf::from(std::env::var("OUT_DIR").unwrap()).join("api_gen.rs");
     fs::write(dest, out).unwrap();
